@@ -22,7 +22,7 @@ impl Prop for C09 {
 
     fn profiles(tier: Tier) -> Vec<Profile> {
         match tier {
-            Tier::Quick => vec![prof("signals", 40_000), prof("certain", 20_000)],
+            Tier::Quick => vec![prof("signals", 160_000), prof("certain", 80_000)],
             Tier::Thorough => vec![prof("signals", 1_500_000), prof("certain", 700_000)],
         }
     }
